@@ -421,6 +421,11 @@ struct Value {
     void do_addr_to_spk() {
         // addresses are base58-check encoded, so we decode them first
         do_base58chkdec();
+        if (type != T_DATA || data.size() < 1) {
+            fprintf(stderr, "not a base58check encoded address\n");
+            data.clear();
+            return;
+        }
         // they are now prefixed with a 0x00; rip that out
         data.erase(data.begin());
         // wrap in appropriate script fluff
